@@ -331,3 +331,150 @@ def run(ctx):
     from . import c20
     r6 = ctx.rule("C08.R6", "stream sources: " + c20.R1_TEXT + " — otherwise source symbols are silently missing from the transfer", "loop rule (shared with C20.R1)")
     c20.stream_fill_rule(ctx, r6)
+
+    # ---- R7 shard creation ------------------------------------------------------------------------
+    r7 = ctx.rule("C08.R7", "source symbols: Block::new_from_buffer counts nb_source_symbols = div_ceil(len(buffer), E), dispatches each FEC encoding "
+                            "id to its own shard creator with (nb_source_symbols, max_number_of_parity_symbols, E) in those roles, and keeps that count "
+                            "in the Block; No-Code and Reed-Solomon shards are consecutive chunks of E bytes numbered by their position (ESI = index), the "
+                            "last RS shard zero-padded to E and the parity shards appended after the source shards", "ARG + DOM + value shape")
+    shard_rule(ctx, r7)
+
+
+def shard_rule(ctx, rule):
+    from ..cfg import strip_ref
+    prog = ctx.prog
+    f = prog.fn(BLOCK + "::new_from_buffer")
+    ctx.analysed(f.path)
+    sl = Slicer(f.body)
+    fl = Flow(f.body)
+    # the count
+    vd = sl.var_defs()
+    cnt = [(e, bb) for (proj, e, bb) in vd.get("nb_source_symbols", []) if proj == ""]
+    key = "new_from_buffer nb_source_symbols"
+    okc = False
+    for e, bb in cnt:
+        ex = sl.expand(e)
+        if ex[0] == "call" and re.search(r"div_ceil$", ex[1]) and len(ex[2]) == 2:
+            a0, a1 = show(strip_ref(ex[2][0]), 80), show(strip_ref(ex[2][1]), 80)
+            if re.search(r"len\(&?buffer\)$", a0) and re.search(r"^\(?oti\.encoding_symbol_length as usize\)?$", a1):
+                okc = True
+    if okc and len(cnt) == 1:
+        rule.ok(key, "div_ceil(buffer.len(), E)", loc(f.sp))
+    else:
+        rule.violation(key, "nb_source_symbols = %s; expected div_ceil(buffer.len(), oti.encoding_symbol_length)" % [show(e, 80) for e, _ in cnt], loc(f.sp))
+    # dispatch
+    want = {"NoCode": "create_shards_no_code", "ReedSolomonGF28": "create_shards_reed_solomon_gf8", "ReedSolomonGF28UnderSpecified": "create_shards_reed_solomon_gf8",
+            "RaptorQ": "create_shards_raptorq", "Raptor": "create_shards_raptor"}
+    seen = {}
+    for s in call_sites(f, lambda p, c: p.startswith(BLOCK + "::create_shards_")):
+        variants = [a[2] for (a, t) in fl.facts_at(s.bb) if a[0] == "variant" and t and "fec_encoding_id" in show(a[1])]
+        name = s.term.callee_path().split("::")[-1]
+        for v in variants:
+            seen[v] = name
+        key = "new_from_buffer %s -> %s" % ("/".join(variants) or "?", name)
+        if variants and all(want.get(v) == name for v in variants):
+            rule.ok(key, "", s.loc)
+        else:
+            rule.violation(key, "FEC encoding id %s is encoded by %s" % (variants, name), s.loc)
+        # roles of the common arguments
+        if name != "create_shards_no_code":
+            a1 = show(strip_ref(s.expr[2][1]))
+            if a1 == "nb_source_symbols":
+                rule.ok(key + " count argument", "", s.loc)
+            else:
+                rule.violation(key + " count argument", "the creator receives %s as the number of source symbols" % a1, s.loc)
+    for v, nm in want.items():
+        if v not in seen:
+            rule.violation("new_from_buffer %s -> %s" % (v, nm), "no shard creator is called under fec_encoding_id == %s" % v, loc(f.sp))
+    # the Block keeps the count
+    for blk in f.body.blocks:
+        for st in blk.stmts:
+            if st.k == "assign" and st.rv.k == "aggr" and st.rv.j.get("adt") == BLOCK and not blk.cleanup:
+                names = st.rv.j["fnames"]
+                vals = {n: show(sl.x.operand(st.rv.ops[i])) for i, n in enumerate(names)}
+                if vals.get("nb_source_symbols") == "nb_source_symbols" and vals.get("read_index") == "0" and vals.get("sbn") == "sbn" and vals.get("shards") == "shards":
+                    rule.ok("new_from_buffer Block{..}", "sbn, read_index 0, shards, nb_source_symbols", loc(st.sp))
+                else:
+                    rule.violation("new_from_buffer Block{..}", "Block built with %s" % vals, loc(st.sp))
+    # encoder constructors: (k, parity, E)
+    CTORS = {"create_shards_reed_solomon_gf8": ("fec::rscodec::RSGalois8Codec::new", ["nb_source_symbols", r"oti\.max_number_of_parity_symbols", r"oti\.encoding_symbol_length"]),
+             "create_shards_raptorq": ("fec::raptorq::RaptorQEncoder::new", ["nb_source_symbols", r"oti\.max_number_of_parity_symbols", r"oti\.encoding_symbol_length"]),
+             "create_shards_raptor": ("fec::raptor::RaptorEncoder::new", ["nb_source_symbols", r"oti\.max_number_of_parity_symbols"])}
+    for cr, (ctor, roles) in sorted(CTORS.items()):
+        g = prog.fn(BLOCK + "::" + cr)
+        ctx.analysed(g.path)
+        cs = call_sites(g, lambda p, c: p == ctor)
+        if not cs:
+            rule.violation("%s -> %s" % (cr, ctor.split("::")[-2]), "constructor call not found", loc(g.sp))
+        for s in cs:
+            for i, rx_ in enumerate(roles):
+                a = show(strip_ref(s.expr[2][i]), 80)
+                key = "%s -> %s::new arg %d" % (cr, ctor.split("::")[-2], i)
+                if re.search(rx_, a) and not any(re.search(o, a) for j, o in enumerate(roles) if j != i):
+                    rule.ok(key, a, s.loc)
+                else:
+                    rule.violation(key, "argument %d is %s, expected %s" % (i, a, rx_), s.loc)
+    # chunking and numbering: No-Code
+    nc = prog.fn(BLOCK + "::create_shards_no_code")
+    ctx.analysed(nc.path)
+    ncs = Slicer(nc.body)
+    chunks = call_sites(nc, lambda p, c: re.search(r"<impl \[T\]>::chunks$", p) is not None)
+    okch = chunks and all(re.search(r"oti\.encoding_symbol_length", show(s.expr[2][1], 80)) and show(strip_ref(s.expr[2][0])) == "buffer" for s in chunks)
+    if okch:
+        rule.ok("create_shards_no_code chunks(E)", "", chunks[0].loc)
+    else:
+        rule.violation("create_shards_no_code chunks(E)", "the block is not cut with buffer.chunks(oti.encoding_symbol_length)", loc(nc.sp))
+    okesi = False
+    for cp in prog.with_closures(nc.path)[1:]:
+        cf = prog.funcs[cp]
+        for s in call_sites(cf, lambda p, c: p == "fec::DataFecShard::new"):
+            cs_ = Slicer(cf.body)
+            a0, a1 = show(cs_.expand(s.expr[2][0]), 80), show(cs_.expand(s.expr[2][1]), 80)
+            # closure parameter is the (index, chunk) tuple
+            if re.search(r"\.0\b|index", a1) and re.search(r"\.1\b|chunk", a0):
+                okesi = True
+    en = call_sites(nc, lambda p, c: p.endswith("Iterator::enumerate"))
+    if okesi and en:
+        rule.ok("create_shards_no_code ESI = position", "enumerate() index -> DataFecShard::new(chunk, index)", loc(nc.sp))
+    else:
+        rule.violation("create_shards_no_code ESI = position", "a No-Code shard is not numbered by its position in the block", loc(nc.sp))
+    # Reed-Solomon: create_shards + encode
+    cs_fn = prog.fn("fec::rscodec::RSCodecParam::create_shards")
+    ctx.analysed(cs_fn.path)
+    chunks = call_sites(cs_fn, lambda p, c: re.search(r"<impl \[T\]>::chunks$", p) is not None)
+    if chunks and all(show(strip_ref(s.expr[2][1])) == "self.encoding_symbol_length" and show(strip_ref(s.expr[2][0])) == "data" for s in chunks):
+        rule.ok("RS create_shards chunks(E)", "", chunks[0].loc)
+    else:
+        rule.violation("RS create_shards chunks(E)", "source shards are not data.chunks(self.encoding_symbol_length)", loc(cs_fn.sp))
+    cfl = Flow(cs_fn.body)
+    rz = call_sites(cs_fn, lambda p, c: re.search(r"Vec.*::resize$", p) is not None)
+    okpad = rz and all(show(strip_ref(s.expr[2][1])) == "self.encoding_symbol_length" and show(s.expr[2][2]) == "0" for s in rz)
+    if okpad:
+        rule.ok("RS create_shards pads the last shard", "resize(E, 0)", rz[0].loc)
+    else:
+        rule.violation("RS create_shards pads the last shard", "the last source shard is not zero-padded to the symbol length", loc(cs_fn.sp))
+    errs = ret_assign_blocks(cs_fn.body, lambda e: is_variant(e, "Err"))
+    okcnt = errs and any(any(a[0] == "eq" and not t and "self.nb_source_symbols" in show(a[1]) + show(a[2]) and "len(" in show(a[1]) + show(a[2]) for (a, t) in cfl.facts_at(bb)) for bb, _ in errs)
+    if okcnt:
+        rule.ok("RS create_shards checks the shard count", "Err unless shards.len() == nb_source_symbols", loc(cs_fn.sp))
+    else:
+        rule.violation("RS create_shards checks the shard count", "no Err return under shards.len() != nb_source_symbols", loc(cs_fn.sp))
+    enc = prog.fn("<fec::rscodec::RSGalois8Codec as fec::FecEncoder>::encode")
+    ctx.analysed(enc.path)
+    okidx = False
+    for cp in prog.with_closures(enc.path)[1:]:
+        cf = prog.funcs[cp]
+        for blk in cf.body.blocks:
+            for st in blk.stmts:
+                if st.k == "assign" and st.rv.k == "aggr" and st.rv.j.get("adt") == "fec::DataFecShard":
+                    names = st.rv.j["fnames"]
+                    cs_ = Slicer(cf.body)
+                    iv = show(cs_.expand(cs_.x.operand(st.rv.ops[names.index("index")])), 80)
+                    sv = show(cs_.expand(cs_.x.operand(st.rv.ops[names.index("shard")])), 80)
+                    if re.search(r"index|\.0\b", iv) and re.search(r"shard|\.1\b", sv):
+                        okidx = True
+    if okidx and call_sites(enc, lambda p, c: p.endswith("Iterator::enumerate")):
+        rule.ok("RS encode ESI = position", "", loc(enc.sp))
+    else:
+        rule.violation("RS encode ESI = position", "an RS shard is not numbered by its position", loc(enc.sp))
+    rule.floor(22, "shard creation facts")
